@@ -26,6 +26,9 @@ def main():
     if not m or not t:
         print("cannot parse RUN.txt"); sys.exit(2)
     dest, gotest = m.group(1), t.group(1).strip()
+    if dest.startswith("repo/"):
+        dest = dest[5:]
+    gotest = gotest.split(";")[0].strip()
     wt = "/work/ev-%s-%s-%d" % (prop, k, os.getpid())
     os.makedirs("/work", exist_ok=True)
     rc, out = sh("git -C /repo worktree add --detach -f %s HEAD" % wt)
